@@ -177,6 +177,7 @@ func init() {
 			{Engine: "A", Scenario: "install-crash", Params: "seg=1024", Quick: 12, Thorough: 150},
 			{Engine: "A", Scenario: "bootstrap-crash", Quick: 6, Thorough: 60},
 			{Engine: "A", Scenario: "window-crash", Params: "seg=1024", Quick: 16, Thorough: 200},
+			{Engine: "A", Scenario: "stale-suffix-install-crash", Params: "seg=1024", Quick: 10, Thorough: 120},
 		},
 		Rule:       "seeded live-cluster runs with hard crashes (cut off the network, copy the storage directory = kill -9 image, restart on the copy) armed at the storage hook points (vote before/after persist, append, segment flush phases, roll-over, truncation, compaction, snapshot publish, install stored / log handled, log reset, segment creation, reply); each restart is compared with what the node had acknowledged; a directed scenario kills a follower inside a snapshot installation (snapshot published / log handled / inside the log reset / after it) and restarts it; a second one kills the node that is being bootstrapped; non-trivial if at least 2 crash images were reopened, or one in a directed scenario; distinct = distinct abstract trace (includes the crash points)",
 		Nontrivial: either(ge("crash-restarts", 2), all(ge("crash-restarts", 1), ge("directed-crash-windows", 1))),
